@@ -550,6 +550,11 @@ fn pick_edge(rng: &mut Rng, cx: &Ctx) -> usize {
 
 fn gen_edge_list(rng: &mut Rng, cx: &Ctx, from_scratch: bool) -> Vec<(usize, usize)> {
     let k = rng.range(0, 5);
+    if cx.m.max_index <= 255 && cx.cfg.fault_permille > 0 && rng.chance(1, 6) {
+        // a list that names the reserved end() index (or needs more nodes than the index type has)
+        let mx = cx.m.max_index;
+        return vec![(rng.below(3), *rng.pick(&[mx, mx - 1, mx]))];
+    }
     let hi = if from_scratch { rng.range(1, 6) } else { cx.m.nodes.len() + rng.below(4) };
     let hi = hi.min(cx.m.max_index.saturating_sub(1)).max(1);
     (0..k).map(|_| (rng.below(hi + 1).min(hi), rng.below(hi + 1).min(hi))).collect()
@@ -1210,10 +1215,34 @@ fn apply<S: AdjSut>(sut: &mut S, cx: &mut Ctx, op: &Op, kind: &'static str) -> R
         }
         Op::Extend { edges } | Op::FromEdges { edges } => {
             let from_scratch = matches!(op, Op::FromEdges { .. });
-            let edges: Vec<(usize, usize)> = edges.iter().map(|&(a, b)| (a.min(mx.saturating_sub(1)).min(300), b.min(mx.saturating_sub(1)).min(300))).collect();
+            let edges: Vec<(usize, usize)> = edges.iter().map(|&(a, b)| (a.min(mx).min(300), b.min(mx).min(300))).collect();
             let mut target = if from_scratch { AdjModel::new(cx.m.compact, cx.m.directed, cx.m.max_index) } else { cx.m.clone() };
             if extend_overflows(&target, &edges) {
-                cx.acc.probe("extend_skipped_would_hit_index_limit");
+                // The list needs more nodes or edges than the index type admits. What the call
+                // leaves behind when it gives up is not specified, but it must give up (panic):
+                // returning normally would mean an element got the reserved end() index or an
+                // index wrapped. After the panic the graph must still be a consistent graph;
+                // the model is re-initialised from its public observation.
+                cx.acc.probe("extend_beyond_index_limit");
+                cx.acc.fault("index_limit_in_extend");
+                cx.faults += 1;
+                let ws: Vec<(usize, usize, u32)> = edges.iter().map(|&(a, b)| (a, b, cx.fresh())).collect();
+                let r = catch(|| if from_scratch { sut.from_edges_replace(&ws) } else { sut.extend_with_edges(&ws) });
+                match r {
+                    Ok(()) => fail!("limit-ignored", "{} with a list that needs more than {} nodes/edges returned normally", kind, mx),
+                    Err(_) => {
+                        cx.acc.fault("documented_panic");
+                        match model_from_sut(sut) {
+                            Ok((m2, _, _)) => cx.m = m2,
+                            Err((c, d)) => fail!("corrupt-after-panic", "after {} gave up at the index limit the graph is inconsistent ({}): {}", kind, c, d),
+                        }
+                        // weights may repeat now (Default node weights): make them unique again
+                        for op2 in [Op::RewriteNodeW, Op::RewriteEdgeW] {
+                            let (k2, _) = op2.kind();
+                            apply(sut, cx, &op2, k2)?;
+                        }
+                    }
+                }
             } else {
                 let ws: Vec<(usize, usize, u32)> = edges.iter().map(|&(a, b)| (a, b, cx.fresh())).collect();
                 let r = catch(|| if from_scratch { sut.from_edges_replace(&ws) } else { sut.extend_with_edges(&ws) });
